@@ -142,7 +142,7 @@ class Args(object):
     """the symbolic arguments of one operation; a bounded argument is made concrete (pick) the first time the operation
     reads it, so an operation only forks on the arguments it uses.  `v` (the inserted integer) stays symbolic."""
     RANGES = {'i': lambda: (IDX_LO, IDX_HI), 'lo': lambda: (SL_LO, SL_HI), 'hi': lambda: (SL_LO, SL_HI), 'st': lambda: (0, NSTEP - 1),
-              'k': lambda: (0, 2), 'n': lambda: (N_LO, N_HI), 'shape': lambda: (0, 6), 'seq': lambda: (0, 5)}
+              'k': lambda: (0, 2), 'n': lambda: (N_LO, N_HI), 'shape': lambda: (0, 6), 'seq': lambda: (0, 6)}
 
     def __init__(self, i=0, lo=None, hi=None, st=0, k=0, n=0, v=0, shape=0, seq=0, kind='json'):
         self.raw = {'i': i, 'lo': lo, 'hi': hi, 'st': st, 'k': k, 'n': n, 'shape': shape, 'seq': seq}
@@ -202,6 +202,15 @@ def iterable(A, c):
     if s == 2: return iter([x, x])
     if s == 3: return []
     if s == 4: return c                 # the tracked container itself
+    if s == 6:
+        # a lazy iterable whose items come out of the session: producing an item flushes what the session has pending (that is what
+        # every query does before it runs), so a change that was reported before the items were taken is written out WITHOUT them
+        def lazy():
+            from pony.orm import flush
+            yield x
+            flush()
+            yield x
+        return lazy()
     return (y for y in (x,))
 
 
@@ -573,6 +582,13 @@ def _l_wn(t, op, lo, hi, v, shape, sq):
     return w
 
 
+def _l_lazy(t, op, lo, hi):
+    """rule M when the new items come from a lazy iterable that flushes the session while it is consumed (shape 6): when the operation
+    is over the attribute must be pending (write bit, 'modified', queued) - its change is not in the database yet"""
+    m, w = mutate(t, LIST_ITER_OPS, pick(op, 0, len(LIST_ITER_OPS) - 1), Args(lo=lo, hi=hi, v=7, shape=0, seq=6))      # (the item is concrete: the flush writes it through the sqlite3 C module)
+    return m
+
+
 def _l_read(t, op, i, lo, hi, st, n, v, shape):
     return read(t, LIST_READS, pick(op, 0, len(LIST_READS) - 1), Args(i=i, lo=lo, hi=hi, st=st, n=n, v=v, shape=shape))
 
@@ -896,6 +912,36 @@ def l_wn_jl1b(op: int, lo: Opt[int], hi: Opt[int], v: int, shape: int, sq: int) 
     return ok(_l_wn('jl1b', op, lo, hi, v, shape, sq))
 
 
+def l_lazy_jl1(op: int, lo: Opt[int], hi: Opt[int]) -> bool:
+    """
+    pre: 0 <= op < len(LIST_ITER_OPS)
+    pre: lo is None or SL_LO <= lo <= SL_HI
+    pre: hi is None or SL_LO <= hi <= SL_HI
+    post: _
+    """
+    return ok(_l_lazy('jl1', op, lo, hi))
+
+
+def l_lazy_jl2(op: int, lo: Opt[int], hi: Opt[int]) -> bool:
+    """
+    pre: 0 <= op < len(LIST_ITER_OPS)
+    pre: lo is None or SL_LO <= lo <= SL_HI
+    pre: hi is None or SL_LO <= hi <= SL_HI
+    post: _
+    """
+    return ok(_l_lazy('jl2', op, lo, hi))
+
+
+def l_lazy_ia(op: int, lo: Opt[int], hi: Opt[int]) -> bool:
+    """
+    pre: 0 <= op < len(LIST_ITER_OPS)
+    pre: lo is None or SL_LO <= lo <= SL_HI
+    pre: hi is None or SL_LO <= hi <= SL_HI
+    post: _
+    """
+    return ok(_l_lazy('ia', op, lo, hi))
+
+
 def l_read_jl0(op: int, i: int, lo: Opt[int], hi: Opt[int], st: int, n: int, v: int, shape: int) -> bool:
     """
     pre: 0 <= op < len(LIST_READS)
@@ -1177,7 +1223,7 @@ def state_ops_sa(op: int, state: int, v: int) -> bool:
     return ok(_state_ops('sa', op, state, v))
 
 
-HARNESSES = ['state_ops_jl1', 'state_ops_jl0', 'state_ops_jd1', 'state_ops_jd0', 'state_ops_ia', 'state_ops_sa', 'l_ops_jl0', 'l_ops_jl1', 'l_ops_jl2', 'l_ops_jl1b', 'l_ops_ia', 'l_ops_sa', 'l_ops_fa', 'l_slice_jl0', 'l_slice_jl1', 'l_slice_jl2', 'l_slice_jl1b', 'l_slice_ia', 'l_slice_sa', 'l_slice_fa', 'l_alias_jl0', 'l_alias_jl1', 'l_alias_jl2', 'l_alias_jl1b', 'l_alias_ia', 'l_alias_sa', 'l_alias_fa', 'l_wn_jl0', 'l_wn_jl1', 'l_wn_jl2', 'l_wn_jl1b', 'l_read_jl0', 'l_read_jl1', 'l_read_jl2', 'l_read_jl1b', 'l_read_ia', 'l_read_sa', 'l_read_fa', 'd_ops_jd0', 'd_ops_jd1', 'd_ops_jd2', 'd_ops_jd1b', 'd_alias_jd0', 'd_alias_jd1', 'd_alias_jd2', 'd_alias_jd1b', 'd_read_jd0', 'd_read_jd1', 'd_read_jd2', 'd_read_jd1b']
+HARNESSES = ['state_ops_jl1', 'state_ops_jl0', 'state_ops_jd1', 'state_ops_jd0', 'state_ops_ia', 'state_ops_sa', 'l_ops_jl0', 'l_ops_jl1', 'l_ops_jl2', 'l_ops_jl1b', 'l_ops_ia', 'l_ops_sa', 'l_ops_fa', 'l_slice_jl0', 'l_slice_jl1', 'l_slice_jl2', 'l_slice_jl1b', 'l_slice_ia', 'l_slice_sa', 'l_slice_fa', 'l_alias_jl0', 'l_alias_jl1', 'l_alias_jl2', 'l_alias_jl1b', 'l_alias_ia', 'l_alias_sa', 'l_alias_fa', 'l_wn_jl0', 'l_wn_jl1', 'l_wn_jl2', 'l_wn_jl1b', 'l_lazy_jl1', 'l_lazy_jl2', 'l_lazy_ia', 'l_read_jl0', 'l_read_jl1', 'l_read_jl2', 'l_read_jl1b', 'l_read_ia', 'l_read_sa', 'l_read_fa', 'd_ops_jd0', 'd_ops_jd1', 'd_ops_jd2', 'd_ops_jd1b', 'd_alias_jd0', 'd_alias_jd1', 'd_alias_jd2', 'd_alias_jd1b', 'd_read_jd0', 'd_read_jd1', 'd_read_jd2', 'd_read_jd1b']
 
 if os.environ.get('C28_DEBUG'):
     import atexit
